@@ -95,9 +95,12 @@ func (api *API) encodeBasedOnType(
 			return api.encodeStruct(ctx, elemValue, elemValue.Interface(), elemValue.Type(), ts, opts)
 		case reflect.Array:
 			return api.encodeArray(ctx, elemValue, ts, opts)
+		case reflect.Ptr:
+			// a pointer to a pointer: the inner pointer is encoded like any other value (it may have a custom codec)
+			return api.encode(ctx, elemValue, ts, opts)
 		default:
-			// a pointer to anything else (number, bool, string, slice, map, interface, another pointer) is written like
-			// the value it points to: this is what the decoder reads for such a pointer
+			// a pointer to anything else (number, bool, string, slice, map, interface) is written like the value it
+			// points to: this is what the decoder reads for such a pointer
 			return api.encodeBasedOnType(ctx, elemValue, elemValue.Interface(), elemValue.Type(), ts, opts)
 		}
 
